@@ -230,9 +230,15 @@ def prove(ctx, prop_modules, extra_token_dirs=()):
     """steps 2+3 for a list of Props modules; returns True iff every theorem checks"""
     theorems = []
     ok_all = True
+    specs = list(prop_modules)
+    prop_modules = [m.split("@")[0] for m in specs]
+    prefix_of = {m.split("@")[0]: (m.split("@")[1] + "." if "@" in m else None) for m in specs}
     for m in prop_modules:
         try:
             ths = theorems_of(m)
+            if prefix_of.get(m):
+                # a module shared by several properties: only the theorems in this property's namespace
+                ths = [t for t in ths if t.startswith(prefix_of[m])]
         except FileNotFoundError:
             ctx.add_ob(f"module:{m}", "theorem", False, "module file missing"); ok_all = False; continue
         # statements kept as `def …_target : Prop` are the parts of the property NOT yet proved
